@@ -11,7 +11,28 @@
 
   Not proved here (trusted, numpy's design): distinct spawn keys give non-overlapping streams.
 -/
+/-
+  CLAUSE MAP (property text -> theorem)
+  1.  sampling resets the model ............................................ C17_schedule / C17_counts (trace starts reset, set_rng; MCMC branch,
+                                                                             generated); VI: C17_vi_generated (generated), C17_vi_once (hand model)
+  2.  advances it exactly b + n*t steps .................................... C17_counts (count of step events), C17_schedule
+  3.  records the state after steps b+t, ..., b+n*t ........................ C17_record_positions
+  4.  leaving the collection complete ...................................... C17_counts (exactly n records for n_thetas = n); VI: C17_vi_generated
+      holder capacity check (add_theta refuses the n+1-th) .................. hand model viRun only (C17_vi_once, C17_vi_model_agrees_with_generated)
+  5.  generator depends only on (seed, n_chains, chain_index); identical for identical triples
+                                                                             C17_rng_function_of_triple (a function of (seed, chain_index); the two
+                                                                             source lines it models are pinned by C17_rng_bindings)
+  6.  a different stream for every other chain index ........................ C17_spawn_keys_distinct (distinct spawn keys, none the root key)
+      ... non-overlapping ................................................... harness-only: numpy's SeedSequence/PCG64 design guarantee (trusted)
+  7.  variational models are asked for exactly n samples once ............... C17_vi_generated (generated from the source: one `sample` event with
+                                                                             argument n_thetas), C17_vi_once, bridge C17_vi_model_agrees_with_generated,
+                                                                             generator line pinned by C17_vi_bindings
+  8.  quantifier b >= 0, t >= 1, n >= 1 (n = 0 included), all seeds / chains  all theorems are for arbitrary naturals / Ints; refusals outside the
+                                                                             domain: C17_rng_refusals; thin = 0: C17_thin_zero_remark
+  harness-only: object identity of the generator / model reuse across calls in one process (no functional model of object state).
+-/
 import Batchie.Lemmas.SamplingSchedule
+import Batchie.Lemmas.SamplingVI
 
 namespace Batchie.Props.C17
 
@@ -219,5 +240,55 @@ theorem C17_vi_once (seed n : Int) (hs : 0 ≤ seed) :
 
 example : viRun 7 3 3 = ([.reset, .setRng 7 [], .sampleCall 3, .addTheta 0, .addTheta 1, .addTheta 2], none) := by
   decide
+
+/-! ### VI branch under the translator -/
+
+/-- **The VI branch as generated from the source** (`Batchie.Gen.SamplingVI.run n r`, `r` = length of the list the model's
+    `sample` returned; event codes 2 = reset_model, 3 = set_rng, `4, m` = `model.sample(num_samples = m)`, 1 = add_theta):
+    for EVERY `n` and `r` the trace is reset, set_rng, ONE `sample` call whose argument is `n = results.n_thetas`, then one
+    `add_theta` per returned element; in particular, when the model honours its contract (`r = n`), exactly `n` samples are
+    added -- the holder of `n_thetas = n` ends complete -- and `sample` was asked exactly once, for exactly `n`. -/
+theorem C17_vi_generated (n : Int) (r : Nat) :
+    (Batchie.Gen.SamplingVI.run n (r : Int)).out = [2, 3, 4, n] ++ List.replicate r (1 : Int) ∧
+    (Batchie.Gen.SamplingVI.run n (r : Int)).err = false ∧
+    (0 ≤ n → (Batchie.Gen.SamplingVI.run n n).out = [2, 3, 4, n] ++ List.replicate n.toNat (1 : Int)) := by
+  obtain ⟨h1, h2⟩ := Batchie.Lemmas.SamplingVI.run_out n r
+  refine ⟨h1, h2, fun hn => ?_⟩
+  have := (Batchie.Lemmas.SamplingVI.run_out n n.toNat).1
+  rwa [Int.toNat_of_nonneg hn] at this
+
+/-- the only line of the VI branch the translator keeps as text: the generator is `default_rng(seed)` -/
+theorem C17_vi_bindings :
+    Batchie.Gen.SamplingVI.opaqueBindings = [("rng", "numpy.random.default_rng(seed)")] := rfl
+
+/-- event codes of the hand model's VI events, as the translator numbers them -/
+def viCode : VIEvent → List Int
+  | .reset => [2]
+  | .setRng _ _ => [3]
+  | .sampleCall m => [4, m]
+  | .addTheta _ => [1]
+
+/-- **Bridge**: the hand model `viRun` (which adds the seed check and the holder's capacity check to the picture) and the
+    generated VI branch describe the same events whenever the seed is valid and the model returns at most `n_thetas`
+    samples (so in particular under the contract `r = n`). -/
+theorem C17_vi_model_agrees_with_generated (seed n : Int) (r : Nat) (hs : 0 ≤ seed) (hr : r ≤ n.toNat) :
+    (viRun seed n r).1.flatMap viCode = (Batchie.Gen.SamplingVI.run n (r : Int)).out ∧ (viRun seed n r).2 = none := by
+  have h1 : ¬ seed < 0 := by omega
+  rw [(Batchie.Lemmas.SamplingVI.run_out n r).1]
+  unfold viRun
+  simp only [h1, if_false, hr, if_true]
+  refine ⟨?_, by first | rfl | trivial⟩
+  rw [List.flatMap_append]
+  have : ∀ m : Nat, ((List.range m).map VIEvent.addTheta).flatMap viCode = List.replicate m (1 : Int) := by
+    intro m
+    induction m with
+    | zero => simp
+    | succ m ih =>
+      rw [List.range_succ, List.map_append, List.flatMap_append, ih]
+      simp [viCode, List.replicate_succ']
+  rw [this]
+  simp [viCode]
+
+example : (Batchie.Gen.SamplingVI.run 3 3).out = [2, 3, 4, 3, 1, 1, 1] := by decide
 
 end Batchie.Props.C17
